@@ -296,6 +296,12 @@ def canon_model(line):
     return " ".join(t)
 
 
+def fl(x):
+    """float() of an exact rational, saturating instead of raising"""
+    try: return float(x)
+    except OverflowError: return float("inf") if x > 0 else float("-inf")
+
+
 def judge(n, es, line, optc):
     """judge one answer against the text of C09 in exact arithmetic. returns a list of (kind, message); [] = fine."""
     if line.startswith(("IMPL-EXCEPTION", "CRASH")) or " RET " not in " " + line:
@@ -322,15 +328,15 @@ def judge(n, es, line, optc):
     S = sum((Fraction(es[i][2]) for cy in cycles for i in cy if isinstance(i, int) and 0 <= i < m), Fraction(0))
     if abs(fr - S) > TOL * S:
         out.append(("returned value is not the sum of the cycle weights", "returned %s (%r) but the emitted cycles weigh %r exactly (relative error %.3g > 1e-9)"
-                    % (ret.hex(), ret, float(S), float(abs(fr - S) / S) if S else float("inf"))))
+                    % (ret.hex(), ret, fl(S), fl(abs(fr - S) / S) if S else float("inf"))))
     opt, _ = optc()
     if fr < opt * (1 - TOL):
-        out.append((KIND_BELOW, "returned %r < true minimum %r (exact rational arithmetic), relative gap %.3g" % (ret, float(opt), float((opt - fr) / opt))))
+        out.append((KIND_BELOW, "returned %r < true minimum %r (exact rational arithmetic), relative gap %.3g" % (ret, fl(opt), fl((opt - fr) / opt))))
     elif fr > opt * (1 + TOL):
         out.append((KIND_ABOVE, "returned %r > true minimum %r (exact rational arithmetic), relative gap %.3g"
-                    % (ret, float(opt), float((fr - opt) / opt))))
+                    % (ret, fl(opt), fl((fr - opt) / opt))))
     elif valid and len(cycles) == N and (S < opt or S > opt * (1 + TOL)):
-        out.append(("emitted basis is not near-minimum", "the emitted cycles weigh %r exactly, true minimum %r" % (float(S), float(opt))))
+        out.append(("emitted basis is not near-minimum", "the emitted cycles weigh %r exactly, true minimum %r" % (fl(S), fl(opt))))
     return out
 
 
